@@ -372,8 +372,34 @@ pub mod memmap2 {
                             0 <= i < l && i < vf_file_content(file).len() ==> #[trigger] m@[i] == vf_file_content(
                                 file,
                             )[i]),
-                        None => m@ == vf_file_content(file),
+                        // memmap2 takes the length from the file's METADATA (fstat), which equals the number of
+                        // readable bytes only for regular files (block devices report 0, /proc files 0 or a page)
+                        None => m@.len() == vf_file_meta_len(file) && (forall|i: int|
+                            0 <= i < m@.len() && i < vf_file_content(file).len() ==> #[trigger] m@[i] == vf_file_content(
+                                file,
+                            )[i]),
                     }
+                },
+                !vf_file_mappable(file) ==> r is Err,
+        {
+            unimplemented!()
+        }
+    }
+
+    // what fstat reports as the size: equal to the number of readable bytes only for regular files, so nothing is
+    // known about it here
+    pub uninterp spec fn vf_file_meta_len(f: &File) -> nat;
+
+    impl Mmap {
+        // `unsafe fn Mmap::map(file)` == `MmapOptions::new().map(file)`
+        #[verifier::external_body]
+        pub fn map(file: &File) -> (r: std::io::Result<Mmap>)
+            ensures
+                r matches Ok(m) ==> {
+                    &&& vf_file_mappable(file)
+                    &&& m@.len() == vf_file_meta_len(file)
+                    &&& forall|i: int|
+                        0 <= i < m@.len() && i < vf_file_content(file).len() ==> #[trigger] m@[i] == vf_file_content(file)[i]
                 },
                 !vf_file_mappable(file) ==> r is Err,
         {
